@@ -135,7 +135,9 @@ class PCACDModel:
             self.Tp = np.vstack([self.Tp[1:], p])
             if (self.total - 1) % self.step == 0 and self.total - 1 != 0:
                 if self.metric == "intersection":
-                    sc = [1 - np.sum(np.minimum(self.dref[i], hist_density(self.Tp[:, i], self.bins, *self.rng[i]))) for i in range(self.npc)]
+                    # one minus an intersection area lies in [0, 1]: rounding must not push it below 0 (a negative score would give
+                    # Page-Hinkley a negative threshold)
+                    sc = [max(0.0, 1 - np.sum(np.minimum(self.dref[i], hist_density(self.Tp[:, i], self.bins, *self.rng[i])))) for i in range(self.npc)]
                     self.edge_prone = self._near_edge()
                 else:
                     sc = [jensenshannon(self.dref[i], kde_density(self.Tp[:, i])) for i in range(self.npc)]
